@@ -199,11 +199,17 @@ def correspondence(kernel, seed, count, tier, workdir):
     stats = os.path.join(workdir, kernel + ".stats")
     wit = os.path.join(workdir, kernel + ".wit")
     env = dict(os.environ, VERIF_TIER=tier, GOMAXPROCS=os.environ.get("GOMAXPROCS", "8"))
-    rc, out, err = sh([os.path.join(BIN, "hinternal"), kernel, str(seed), str(count), ops, exp, stats, wit], env=env, timeout=3000)
+    try:
+        rc, out, err = sh([os.path.join(BIN, "hinternal"), kernel, str(seed), str(count), ops, exp, stats, wit], env=env, timeout=4 * 3600)
+    except subprocess.TimeoutExpired:
+        return {"kernel": kernel, "error": "hinternal did not finish %d cases within 4 h" % count, "cases": 0, "disagreements": []}
     if rc != 0:
         return {"kernel": kernel, "error": "hinternal failed: " + (out + err)[-2000:], "cases": 0, "disagreements": []}
     with open(ops, "rb") as fi, open(got, "wb") as fo:
-        p = subprocess.run([DRIVER], stdin=fi, stdout=fo, stderr=subprocess.PIPE, timeout=3000)
+        try:
+            p = subprocess.run([DRIVER], stdin=fi, stdout=fo, stderr=subprocess.PIPE, timeout=4 * 3600)
+        except subprocess.TimeoutExpired:
+            return {"kernel": kernel, "error": "modeldriver did not finish %d cases within 4 h" % count, "cases": 0, "disagreements": []}
     if p.returncode != 0:
         return {"kernel": kernel, "error": "modeldriver failed: " + p.stderr.decode()[-2000:], "cases": 0, "disagreements": []}
     dis = []
